@@ -11,6 +11,7 @@ import TonVerif.Proofs.Binding
 import TonVerif.Proofs.PruneWF
 import TonVerif.Proofs.OrdCell
 import TonVerif.Proofs.Locate
+import TonVerif.Proofs.LocateBind
 
 namespace TonVerif.Properties.C11
 open TonVerif TonVerif.Model TonVerif.Proofs.CellSpec TonVerif.Proofs.Prune TonVerif.Proofs.Merkle
@@ -568,5 +569,46 @@ example : TreeWF toyH leafA ∧ specInfo toyH leafA = some sLeafA ∧ sLeafA.mas
   · unfold leafA
     rw [PruneRel]
     exact Or.inr ⟨.ordinary, [], by decide, rfl, by rw [PruneRels]⟩
+
+/-! ## account proofs, end to end: what acceptance says about the TRUE shard state -/
+
+/-- SOUNDNESS OF `check_account_proof`, END TO END.  Let the second root of the bag be the object of a spec-valid tree
+`.mk kind bits [p]` (`p` = the body of the state proof), the address 32 bytes, and `check_account_proof` return.  Then
+the header proof passes `check_proof` against the block root hash, its block header commits (in the Merkle update
+`root[2]`, `c11_header_state_sound`) to a state hash `sh`, and for EVERY tree `T` (any cell types; `Shape`) whose
+level-0 hash is `sh` and in which pruned branches occur only below Merkle cells (`OrdUnpruned` — a genuine shard state),
+under the LOCAL no-collision hypothesis between the representations of `p` and of `T` (as in `c11_sound`):
+the lookup-only reading of block.tlb finds in `T` itself — `T[1]` an `ahme_root`, the dictionary walk from `T[1][0]`
+along the 256 address bits, the leaf's `DepthBalanceInfo` skipped — a `ShardAccount` whose `account:^Account` cell
+`aT` has level-0 hash equal to the REPRESENTATION hash of the supplied account state.  I.e. the block id binds the state
+hash, the state hash binds the `ShardAccounts` dictionary path, and the dictionary of the true state maps the address
+to the supplied state (up to `H`-collisions among the cells at hand).  Holds for every behaviour `O` of the two
+unmodelled sub-parsers and whatever is pruned in the proof. -/
+theorem c11_account_sound_state (H : Bytes → Bytes) (h32 : ∀ x, (H x).length = 32) (O : Opaque)
+    (kind : Int) (bits : Bits) (p T : Cell) (c0 c1 : PCell) (blk addr : Bytes) (state : PCell) (sp sT : Spec.SInfo)
+    (wf : TreeWF H (.mk kind bits [p])) (hc1 : PCell.ofCell H (.mk kind bits [p]) = some c1)
+    (hl : addr.length = 32) (hw : Bytes.WF addr)
+    (hacc : checkAccountProof O [c0, c1] blk addr state = true)
+    (shp : Shape p) (shT : Shape T) (hsp : specInfo H p = some sp) (hsT : specInfo H T = some sT)
+    (hu : OrdUnpruned T)
+    (nocoll : ∀ x y, x ∈ reprs H p → y ∈ reprs H T → H x = H y → x = y) :
+    ∃ hdr sh, checkProof c0 blk = true ∧ c0.refs[0]? = some hdr ∧ checkBlockHeaderProofState hdr blk = some sh ∧
+      (sT.hashAt 0 = sh → ∃ aT sa, lookupShardAccount cellView T (bytesToBits addr) = some aT ∧
+        specInfo H aT = some sa ∧ sa.hashAt 0 = state.info.hash) := by
+  obtain ⟨p0, p1, hdr, st, acc, sh, e, h0, hhdr, hsh, hst, _, h1, hloc, hh⟩ := c11_account_sound O [c0, c1] blk addr state hacc
+  simp only [List.cons.injEq, and_true] at e
+  obtain ⟨rfl, rfl⟩ := e
+  refine ⟨hdr, sh, h0, hhdr, hsh, ?_⟩
+  intro hT
+  obtain ⟨_, _, hag⟩ := c11_sound H h32 kind bits p T c1 sh sp sT wf hc1 h1 shp shT hsp hsT hT nocoll
+  obtain ⟨r, hr, hrp⟩ := ofCell_single H kind bits p _ hc1
+  rw [hr] at hst
+  simp only [List.getElem?_cons_zero, Option.some.injEq] at hst
+  subst hst
+  have wfp : TreeWF H p := by rw [TreeWF] at wf; exact wf.1.1
+  have hlk := locateAccount_lookup O r addr acc hl hw hloc
+  obtain ⟨aT, sa, hlT, hsa, hha⟩ := lookup_transfer H p T r acc _ hrp wfp hag hu hlk
+  rw [hh] at hha
+  exact ⟨aT, sa, hlT, hsa, (Option.some.inj hha).symm⟩
 
 end TonVerif.Properties.C11
